@@ -106,7 +106,7 @@ def run(ctx):
                 OB + 'push_content_body': ['serialize'], OB + 'clear': ['clear'], OB + 'drain_written': ['drain'], OB + 'append': ['append'], 'serialize::serialize': ['resize']}
         r.eq('mutator-set', seen, want, None, why='any other way of changing the byte vector could insert or drop partial frames')
         for nm, gen, args in (('push_heartbeat', 'gen_heartbeat_frame', '($c0, $c1)'), ('push_method', 'gen_method_frame', '($c0, $c1), channel_id, serialize::IntoAmqpClass::into_class(method)'),
-                              ('push_content_header', 'gen_content_header_frame', '($c0, $c1), channel_id, class_id, (length as u64), properties'),
+                              ('push_content_header', 'gen_content_header_frame', '($c0, $c1), channel_id, class_id, length, properties'),
                               ('push_content_body', 'gen_content_body_frame', '($c0, $c1), channel_id, content')):
             rows = P.table(ctx, OB + nm)
             want1 = 'serialize::serialize(self.0, |$c0, $c1| amq_protocol::frame::generation::%s(%s))' % (gen, args)
@@ -208,13 +208,13 @@ def run(ctx):
         site = ctx.site('io_loop::IoLoop::run_io_loop')
         reg = [e for e in evs if e.kind == 'call' and e.callee == 'mio::Poll::reregister' and any(g[2] == 'loop' for g in e.guards)]
         rw = [e for e in reg if '(mio::Ready::readable() | mio::Ready::writable())' in S.show(e.term)]
-        ok = len(rw) == 1 and {'if(io_loop::Inner::has_data_to_write(self.inner))', 'if(have_written_to_socket)'} <= set(x for g in rw[0].guards for x in S.guard_strs(g)) and \
+        ok = len(rw) == 1 and {'unless(serialize::SealableOutputBuffer::is_empty(self.inner.outbuf))', 'if(have_written_to_socket)'} <= set(x for g in rw[0].guards for x in S.guard_strs(g)) and \
             S.show(rw[0].args[1]) == 'stream' and S.show(rw[0].args[2]) == 'io_loop::STREAM'
         r.check('rearm-writable', ok, site, built=[(S.show(e.term)[:160], [g[3] for g in e.guards if g[2] == 'if']) for e in reg],
                 expected='in the loop: if has_data_to_write() && have_written_to_socket { reregister(stream, STREAM, readable|writable, edge) }')
         entry = [e for e in evs if e.kind == 'call' and e.callee == 'mio::Poll::reregister' and not any(g[2] == 'loop' for g in e.guards)]
         gs = [sorted(x for g in e.guards for x in S.guard_strs(g)) for e in entry]
-        ok = len(entry) == 1 and gs[0] == sorted(['if(io_loop::Inner::has_data_to_write(self.inner))', 'if(have_written_to_socket)']) and \
+        ok = len(entry) == 1 and gs[0] == sorted(['unless(serialize::SealableOutputBuffer::is_empty(self.inner.outbuf))', 'if(have_written_to_socket)']) and \
             '(mio::Ready::readable() | mio::Ready::writable())' in S.show(entry[0].term) and S.show(entry[0].args[1]) == 'stream' and S.show(entry[0].args[2]) == 'io_loop::STREAM' and \
             not [x for x in evs if x.idx < entry[0].idx and x.kind in ('ret', 'try')]
         r.check('rearm-at-entry', ok, site, built=[(S.show(e.term)[:160], g) for e, g in zip(entry, gs)],
